@@ -286,6 +286,16 @@ func runC20(c *eng.Ctx) {
 					if as, ok := n.Node.(*ast.AssignStmt); ok && len(as.Rhs) == 1 && isCallTo(info, as.Rhs[0], check) {
 						errVar = eng.SelObj(info, as.Lhs[0])
 					}
+					// `var e error = check(f)`: the form a parameter binding of an inlined callback takes
+					if n.Node != nil {
+						ast.Inspect(n.Node, func(x ast.Node) bool {
+							if vs, ok := x.(*ast.ValueSpec); ok && len(vs.Names) == 1 && len(vs.Values) == 1 && isCallTo(info, vs.Values[0], check) {
+								errVar = info.Defs[vs.Names[0]]
+							}
+							_, isLit := x.(*ast.FuncLit)
+							return !isLit
+						})
+					}
 				}
 				nilEdge := g.FactEdge(func(fc eng.Fact) bool {
 					x, y, eq, isEq := eng.EqAtom(fc)
